@@ -105,6 +105,15 @@ CHECKS['C02'] = dict(
     note='Trusted as for C01.',
     design='7 (C02)')
 
+CHECKS['C11'] = dict(
+    technique='Lean 4 theorem on the context table of a parentless named module (identity) + C01 refinement for the unnamed reading + cross-variant differential run (named / include_source / repeated compilation / emitted source in an isolated interpreter) against each other, against template expansions and against the Lean model',
+    text=('Proof: C11_context_table_identity (looking a rule up through the _Context table of a module without parent finds the rule own implementation - what the direct reference of an unnamed grammar denotes); the unnamed reading is decided by the '
+          'core model (C01). Tie: every sampled description (core, ignore, class, operator-table, template and parameter descriptions) is compiled as {unnamed, named, include_source, second compilation, named+include_source} and its emitted '
+          '_source_code is imported by a fresh interpreter started with -I -S (standard library only); all variants must agree on outcome class, value incl. spans, and position; named and unnamed variants are compared with the Lean model, '
+          'template descriptions with hand-written expansions. PARTIAL: compile/exec/importlib/include_source have no model.'),
+    note='Trusted as for C01; the variants are implementation-level observations.',
+    design='7 (C11)')
+
 NOT_YET = {
 }
 
